@@ -47,14 +47,16 @@ PROP = "C19"
 RTOL = 1e-9
 
 
-def agree(a, b):
-    """1e-9 relative to the largest serial value (partial sums are re-associated)."""
+def agree(a, b, floor=0.0):
+    """1e-9 relative to the largest serial value (partial sums are re-associated); `floor` is the
+    magnitude of a single summand, so that results which are pure rounding noise around an exact
+    zero (all summands cancel) are not compared relative to that noise."""
     a = np.asarray(a, dtype=float)
     b = np.asarray(b, dtype=float)
     if a.shape != b.shape:
         return False
     fin = np.isfinite(b)
-    scale = float(np.abs(b[fin]).max()) if fin.any() else 1.0
+    scale = max(float(np.abs(b[fin]).max()) if fin.any() else 1.0, floor)
     return close(a, b, rtol=RTOL, atol=RTOL * max(scale, 1e-300))
 
 
@@ -394,8 +396,9 @@ def clear_caches():
 _serial_cache = {}
 
 
-def serial_result(rep, g, measure, kw, gkey):
-    """Serial reference (mpi not available, no pool), also checked for silence levels 0..3."""
+def serial_result(rep, g, measure, kw, gkey, levels=(3, 2, 1, 0)):
+    """Serial reference (mpi not available, no pool), also checked for silence levels 0..3
+    (`levels` is shortened for the slow >100-node Arenas cases)."""
     k = (gkey, measure, json.dumps(kw, sort_keys=True))
     if k in _serial_cache:
         return _serial_cache[k]
@@ -403,7 +406,7 @@ def serial_result(rep, g, measure, kw, gkey):
     assert not mpi.available
     ref = None
     wit = {"kind": "serial", "graph": g, "measure": measure, "kwargs": kw}
-    for sl in (3, 2, 1, 0):
+    for sl in levels:
         clear_caches()
         buf = io.StringIO()
         try:
@@ -427,7 +430,8 @@ def check_distributed(rep, wit, gkey=None):
     """One distributed run of one measure under one schedule vs. the serial result."""
     g, measure, kw = wit["graph"], wit["measure"], wit.get("kwargs", {})
     gkey = gkey or json.dumps(g, sort_keys=True)
-    ref = serial_result(rep, g, measure, kw, gkey)
+    ref = serial_result(rep, g, measure, kw, gkey,
+                        levels=(3, 0) if wit.get("heavy") else (3, 2, 1, 0))
     if ref is None:
         return
     size = int(wit["size"])
@@ -599,6 +603,9 @@ def check_kernel(rep, wit):
             type(e).__name__, e, " / ".join(traceback.format_exc().strip().splitlines()[-3:])))
         return
     full = np.asarray(full, dtype=float)
+    # magnitude of one summand of the kernel's defining sum
+    floor = float(w.max()) ** 2 if kern in ("_mpi_nsi_arenas_betweenness", "_nsi_betweenness") \
+        else float(np.abs(V).max()) * (float(w.max()) ** 3 if "nsi" in kern else 1.0)
     if kern in ("_mpi_newman_betweenness", "_mpi_nsi_newman_betweenness"):
         label = kern + "/partition-concat"
         ok_ranges = all((int(p[1]), int(p[2])) == c for p, c in zip(parts, chunks)) and \
@@ -610,15 +617,15 @@ def check_kernel(rep, wit):
     else:
         label = kern + ("/partition-sum" if kern.startswith("_mpi") else "/target-batches-additive")
         glued = np.sum([np.asarray(p[0], dtype=float) for p in parts], axis=0)
-    if not agree(glued, full):
-        bad = np.nonzero(~np.isclose(glued, full, rtol=RTOL, atol=RTOL * np.abs(full).max()))[0]
+    if not agree(glued, full, floor):
+        bad = np.nonzero(~np.isclose(glued, full, rtol=RTOL, atol=RTOL * max(np.abs(full).max(), floor)))[0]
         rep.fail(label, wit, "chunks %r: entry %d is %.17g from the chunks, %.17g from one chunk" % (
             chunks, int(bad[0]) if len(bad) else -1,
             glued[bad[0]] if len(bad) else np.nan, full[bad[0]] if len(bad) else np.nan))
     if spec is not None:
         rep.case(key + ("definition",), nontrivial=A.sum() > 0)
-        if not agree(full, spec):
-            bad = np.nonzero(~np.isclose(full, spec, rtol=RTOL, atol=RTOL * np.abs(spec).max()))[0]
+        if not agree(full, spec, floor):
+            bad = np.nonzero(~np.isclose(full, spec, rtol=RTOL, atol=RTOL * max(np.abs(spec).max(), floor)))[0]
             rep.fail(kern + "/definition", wit, "entry %d: kernel %.17g, defining sum %.17g" % (
                 int(bad[0]) if len(bad) else -1, full[bad[0]] if len(bad) else np.nan,
                 spec[bad[0]] if len(bad) else np.nan))
@@ -662,11 +669,11 @@ def graph_family(rs, tier):
         n, edges = make_graph(rs, cs, p_extra=0.12)
         yield {"n": n, "edges": edges, "weights": np.round(rs.uniform(0.5, 2.5, n), 3).tolist()}
     # a component with more than 100 nodes: the number of MPI nodes changes the chunking
-    big = [[103, 4]] if quick else [[103, 4], [117, 12], [211]]
-    for cs in big:
+    big = [[103, 4]] if quick else [[103, 4], [117, 12], [211]]   # Arenas: thorough tier only
+    for bi, cs in enumerate(big):
         n, edges = make_graph(rs, cs, p_extra=0.02)
         yield {"n": n, "edges": edges, "weights": np.round(rs.uniform(0.5, 2.5, n), 3).tolist(),
-               "big": True}
+               "big": 2 if (bi == 0 and not quick) else 1}
 
 
 def gen_distributed(rs, tier):
@@ -675,20 +682,21 @@ def gen_distributed(rs, tier):
         big = g.pop("big", False)
         n = g["n"]
         ncomp = largest_component(n, g["edges"])
-        variants = MPI_VARIANTS if not big else MPI_VARIANTS[:2] + MPI_VARIANTS[3:4]
+        variants = MPI_VARIANTS if not big else \
+            MPI_VARIANTS[:2] + (MPI_VARIANTS[3:4] if big == 2 else [])
         for measure, kw in variants:
             heavy = big and measure == "nsi_arenas_betweenness"
             # worker counts: extremes, the value where (size-1)*10 crosses 0.1*N, random others
-            sizes = [2, 3, n + 2] + [int(s) for s in rs.randint(2, n + 3, size=1 if quick else 4)]
+            sizes = [2, 3, n + 2] + [int(s) for s in rs.randint(2, n + 3, size=3 if quick else 5)]
             if big:
                 sizes += [int(np.ceil(0.01 * ncomp)) + 1, int(np.ceil(0.01 * ncomp)) + 2]
             if heavy:
-                sizes = [2, n + 2] if quick else [2, 3, n + 2]
+                sizes = [2, n + 2]
             for i, size in enumerate(sorted(set(sizes))):
-                reps = 1 if (quick or heavy) else 2
+                reps = 1 if heavy else 2
                 for r in range(reps):
                     yield {"kind": "distributed", "graph": g, "measure": measure, "kwargs": kw,
-                           "size": size,
+                           "size": size, "heavy": heavy,
                            "transport": ["standin", "comm"][(i + r) % 2],
                            "assign": ASSIGN[int(rs.randint(0, len(ASSIGN)))],
                            "policy": POLICIES[int(rs.randint(0, len(POLICIES)))],
